@@ -9,6 +9,7 @@ import (
 	"math/big"
 	"os"
 	"strings"
+	"sync"
 
 	"golang.org/x/tools/go/ssa"
 
@@ -16,6 +17,17 @@ import (
 )
 
 var debugFeas = os.Getenv("GOSMT_DEBUG_FEAS") != ""
+var forkStat map[string]int
+var forkStatMu sync.Mutex
+
+func init() {
+	if os.Getenv("GOSMT_FORKSTAT") != "" {
+		forkStat = map[string]int{}
+	}
+}
+
+// ForkStats returns fork counts per source location (debugging aid).
+func ForkStats() map[string]int { return forkStat }
 
 // ---- control-flow signals (Go panics caught by the path driver) ------------
 
@@ -57,6 +69,19 @@ type Obligation struct {
 	Where   string
 	Kind    string // assert | panic | bound | reach
 	Note    string
+	UF      []UFRec
+}
+
+type UFRec struct {
+	Name string
+	Args []string // hex bytes per argument
+	Val  string
+}
+
+type ufLogEntry struct {
+	name string
+	args [][]*smt.Term
+	res  *smt.Term
 }
 
 type Decision struct {
@@ -100,14 +125,15 @@ type Exec struct {
 	lastPanic     string
 	pending       []pendingPanic
 	ufApps        map[string][][2]*smt.Term
+	ufLog         []ufLogEntry
 	watchOff      bool
 	Shared        *Shared
 	endWhy        string
 	inconcl       string
 	b58           []b58rec
-	watch     map[*Cell]*Cell   // cell -> mutex cell that must be held on access
-	watchBuf  map[*SymBuf]*Cell
-	watchHits int
+	watch         map[*Cell]*Cell // cell -> mutex cell that must be held on access
+	watchBuf      map[*SymBuf]*Cell
+	watchHits     int
 	SweepSupports int
 	SweepMs       int64
 	// statistics
@@ -337,6 +363,11 @@ func (e *Exec) forkOn(ct, cf *smt.Term) bool {
 	if e.tolerant {
 		panic(inconclusive{"symbolic branch during init"})
 	}
+	if forkStat != nil {
+		forkStatMu.Lock()
+		forkStat[e.where()]++
+		forkStatMu.Unlock()
+	}
 	ch := e.choose(2, func(i int) bool {
 		if i == 0 {
 			return e.feasible(ct)
@@ -408,6 +439,13 @@ func (e *Exec) check(kind, label string, c *smt.Term) bool {
 	}
 	sc := e.script(smt.Not(c))
 	sc.Get = e.inputTerms()
+	nIn := len(sc.Get)
+	for _, u := range e.ufLog {
+		for _, arg := range u.args {
+			sc.Get = append(sc.Get, arg...)
+		}
+		sc.Get = append(sc.Get, u.res)
+	}
 	a := e.Solver.Check(sc, e.Cfg.TimeoutMs)
 	ob.Millis = a.Millis
 	switch a.Res {
@@ -416,15 +454,39 @@ func (e *Exec) check(kind, label string, c *smt.Term) bool {
 	case smt.Sat:
 		ob.Verdict = "sat"
 		ob.Model = map[string]string{}
-		_, names := (&smt.Script{Get: sc.Get}).Render()
 		for i, in := range e.inputs {
-			if v, ok := a.Model[names[i]]; ok {
+			if i < len(a.Values) {
+				v := a.Values[i]
 				if b, ok := smt.ParseValue(v); ok {
 					ob.Model[in.Name] = b.String()
 				} else {
 					ob.Model[in.Name] = v
 				}
 			}
+		}
+		k := nIn
+		val := func() *big.Int {
+			if k >= len(a.Values) {
+				return new(big.Int)
+			}
+			v := a.Values[k]
+			k++
+			if b, ok := smt.ParseValue(v); ok {
+				return b
+			}
+			return new(big.Int)
+		}
+		for _, u := range e.ufLog {
+			rec := UFRec{Name: u.name}
+			for _, arg := range u.args {
+				hx := ""
+				for range arg {
+					hx += fmt.Sprintf("%02x", val().Uint64()&0xff)
+				}
+				rec.Args = append(rec.Args, hx)
+			}
+			rec.Val = val().String()
+			ob.UF = append(ob.UF, rec)
 		}
 		ob.Trace = append([]Decision(nil), e.trace...)
 	default:
@@ -544,10 +606,9 @@ func (e *Exec) flushPanics() {
 			if a2.Res == smt.Sat {
 				o.Verdict = "sat"
 				o.Model = map[string]string{}
-				_, names := (&smt.Script{Get: sc2.Get}).Render()
 				for i, in := range e.inputs {
-					if v, ok := a2.Model[names[i]]; ok {
-						if b, ok := smt.ParseValue(v); ok {
+					if i < len(a2.Values) {
+						if b, ok := smt.ParseValue(a2.Values[i]); ok {
 							o.Model[in.Name] = b.String()
 						}
 					}
@@ -1182,6 +1243,21 @@ func (e *Exec) instr(fr *Frame, ins ssa.Instruction) {
 			return
 		}
 		fr.vals[x] = &Pointer{C: &Cell{Sub: sv.Back[sv.Off : sv.Off+n : sv.Off+n]}}
+	case *ssa.Select:
+		if x.Blocking {
+			e.unsupported("blocking select")
+		}
+		// non-blocking select: the default case is always a possible outcome; channels are not
+		// modelled, so it is the outcome taken
+		tp := Tuple{smt.BVC(64, ^uint64(0)), smt.False}
+		for _, st := range x.States {
+			if st.Dir == types.RecvOnly {
+				tp = append(tp, zeroValue(st.Chan.Type().Underlying().(*types.Chan).Elem()))
+			}
+		}
+		fr.vals[x] = tp
+	case *ssa.MakeChan:
+		fr.vals[x] = &Opaque{"chan"}
 	case *ssa.Go:
 		e.unsupported("go statement")
 	default:
